@@ -2,23 +2,9 @@
 
 package api
 
-import (
-	"fmt"
-	"net/http"
-	"net/http/httptest"
-	"strings"
-	"testing"
-	"time"
 
-	"github.com/prometheus/client_golang/prometheus"
-	"github.com/prometheus/client_golang/prometheus/testutil"
-
-	"github.com/prometheus/alertmanager/internal/verif/rep"
-)
-
-// C18 (GET limiter): every sequence up to a depth over {start GET, start POST, finish request i} through the
-// real limitHandler with concurrency 1 and 2. A GET is refused with 503 (and counted) exactly when the
-// configured number of GETs is in flight; POSTs are never refused.
+// C18 (GET limiter): shared request bookkeeping; the scenarios are in c18timeout_test.go (virtual time, with and
+// without --web.timeout).
 
 type c18Req struct {
 	method  string
@@ -27,165 +13,5 @@ type c18Req struct {
 	entered chan struct{}
 }
 
-func c18Seq(conc int, seq []int) (viol, desc string, obs string) {
-	a := &API{
-		requestsInFlight:         prometheus.NewGauge(prometheus.GaugeOpts{Name: "x"}),
-		concurrencyLimitExceeded: prometheus.NewCounter(prometheus.CounterOpts{Name: "y"}),
-		inFlightSem:              make(chan struct{}, conc),
-	}
-	var reqs []*c18Req
-	inner := http.HandlerFunc(func(w http.ResponseWriter, r *http.Request) {
-		q := r.Context().Value(ctxKey{}).(*c18Req)
-		close(q.entered)
-		<-q.release
-		w.WriteHeader(200)
-	})
-	h := a.limitHandler(inner)
-	getsInFlight := 0
-	refused := 0.0
-	start := func(method string) (string, string) {
-		q := &c18Req{method: method, release: make(chan struct{}), done: make(chan int, 1), entered: make(chan struct{})}
-		reqs = append(reqs, q)
-		go func() {
-			r := httptest.NewRequest(method, "/api/v2/alerts", nil)
-			r = r.WithContext(contextWith(r, q))
-			w := httptest.NewRecorder()
-			h.ServeHTTP(w, r)
-			q.done <- w.Code
-		}()
-		select {
-		case <-q.entered:
-			if method == "GET" {
-				if getsInFlight >= conc {
-					return "get-admitted-beyond-concurrency", fmt.Sprintf("a GET was admitted while %d GETs were in flight (limit %d)", getsInFlight, conc)
-				}
-				getsInFlight++
-			}
-			obs += method[:1] + "+ "
-		case code := <-q.done:
-			q.release = nil
-			obs += fmt.Sprintf("%s%d ", method[:1], code)
-			if method == "POST" {
-				return "post-refused", fmt.Sprintf("a POST was answered %d with %d GETs in flight", code, getsInFlight)
-			}
-			if code != 503 {
-				return "refusal-not-503", fmt.Sprint(code)
-			}
-			if getsInFlight < conc {
-				return "get-refused-below-concurrency", fmt.Sprintf("a GET was refused with only %d GETs in flight (limit %d)", getsInFlight, conc)
-			}
-			refused++
-			if got := testutil.ToFloat64(a.concurrencyLimitExceeded); got != refused {
-				return "refusal-not-counted", fmt.Sprintf("counter %v after %v refusals", got, refused)
-			}
-		case <-time.After(5 * time.Second):
-			return "request-hangs", method
-		}
-		return "", ""
-	}
-	finish := func(i int) bool {
-		k := -1
-		for _, q := range reqs {
-			if q.release != nil {
-				k++
-				if k == i {
-					close(q.release)
-					q.release = nil
-					if c := <-q.done; c != 200 {
-						viol, desc = "admitted-request-failed", fmt.Sprint(c)
-					}
-					if q.method == "GET" {
-						getsInFlight--
-					}
-					obs += "f "
-					return true
-				}
-			}
-		}
-		return false
-	}
-	defer func() {
-		for _, q := range reqs {
-			if q.release != nil {
-				close(q.release)
-			}
-		}
-	}()
-	for _, e := range seq {
-		switch e {
-		case 0:
-			if v, d := start("GET"); v != "" {
-				return v, d, obs
-			}
-		case 1:
-			if v, d := start("POST"); v != "" {
-				return v, d, obs
-			}
-		default:
-			if !finish(e - 2) {
-				return "", "", "skip"
-			}
-			if viol != "" {
-				return viol, desc, obs
-			}
-		}
-	}
-	return "", "", obs
-}
-
 type ctxKey struct{}
 
-func TestVerifC18Limiter(t *testing.T) {
-	R := rep.New("C18", "get-limiter")
-	depth := 6
-	if rep.Thorough() {
-		depth = 7
-	}
-	names := []string{"start GET", "start POST", "finish oldest open request", "finish 2nd open request", "finish 3rd open request"}
-	if rp := rep.ReplaySpec(); rp != nil {
-		if rp["part"] != "get-limiter" {
-			return
-		}
-		v, d, o := c18Seq(int(rp["conc"].(float64)), rep.Ints(rp["events"]))
-		fmt.Printf("REPLAY violation=%q %s obs=%s\n", v, d, o)
-		R.Executions = 1
-		if v != "" {
-			R.Violate(v, d, rp)
-		}
-		R.Write()
-		return
-	}
-	for _, conc := range []int{1, 2} {
-		var rec func(seq []int)
-		rec = func(seq []int) {
-			if len(seq) > 0 {
-				v, d, o := c18Seq(conc, seq)
-				if o == "skip" {
-					return
-				}
-				R.Executions++
-				R.Transitions += int64(len(seq))
-				R.AddKey(fmt.Sprint(conc, o))
-				if v != "" {
-					var nm []string
-					for _, e := range seq {
-						nm = append(nm, names[e])
-					}
-					R.Violate(v, fmt.Sprintf("concurrency %d, sequence [%s]: %s", conc, strings.Join(nm, ", "), d), map[string]any{"part": "get-limiter", "conc": conc, "events": seq})
-					return
-				}
-			}
-			if len(seq) == depth {
-				return
-			}
-			for e := 0; e < len(names); e++ {
-				rec(append(append([]int{}, seq...), e))
-			}
-		}
-		rec(nil)
-	}
-	R.Exhaustive = true
-	R.Bound = fmt.Sprintf("all sequences of <= %d events over %v, concurrency 1 and 2, through the real limitHandler", depth, names)
-	R.Sample(map[string]any{"events": names})
-	R.Write()
-}
